@@ -24,7 +24,7 @@ NOT_APPLICABLE = {
     'C31': "frame condition over the entire framework along API-call histories; per-function frames are proved where they live (C12, C33)",
     'C34': "derivatives come from jax AD / generated code; nothing to put under contract",
 }
-for _p in ['C02','C03','C04','C05','C06','C07','C08','C11','C12','C13','C15','C16','C21','C22','C23','C25','C26','C27','C29','C30','C32']:
+for _p in ['C02','C03','C04','C05','C06','C07','C08','C11','C12','C13','C15','C16','C21','C23','C25','C26','C27','C29','C30','C32']:
     NOT_APPLICABLE.setdefault(_p, NA_DEFAULT)
 
 CLAIMED = {
@@ -48,4 +48,9 @@ CLAIMED = {
         design_ref="DESIGN.md section 3 C20",
         note="Trusted: pyvc and its NumPy model (0-d arrays modelled as length-1 arrays; validated by native sampling), z3; reals instead of floats (clauses that reorder float operations are compared natively with a 1e-9 tolerance). Not covered: unit-conversion part of total_scaler/total_adder (System._setup_driver_units, _TotalJacInfo._apply_unit_scaling), OptimizerVector.update_from_model, _compute_scaled_bounds' layout loop.",
         technique="deductive verification: sidecar contracts + symbolic execution of real source -> VCs -> z3 (QF_NRA); lemma via modular harness; canaries + native sampling"),
+    'C22': dict(
+        text="Proof (all sizes and values over the reals; scalar and array lower/upper/equals; None, scalar and array scalers; every ctype/lintype filter) that Driver.get_constraint_values(viol=True) returns, per element, value-lower below the lower bound, value-upper above the upper bound, value-equals for equalities and 0 when satisfied, multiplied by the constraint's scaler exactly when driver_scaling is requested, and reports exactly the constraints selected by the filters. The model values are an arbitrary array delivered by update_from_model (assumed contract). Both halves failed on the original tree; the defect was repaired in /repo (fix: commit).",
+        design_ref="DESIGN.md section 3 C22",
+        note="Trusted: pyvc and its NumPy model (np.where index sets, masks), z3; reals instead of floats. Assumed: OptimizerVector.update_from_model(driver_scaling=False) fills the constraint vector with model values. Not covered: _compute_con_viol's concatenation order, find_feasible's use of the result.",
+        technique="deductive verification: sidecar contract + symbolic execution of real source -> VCs -> z3; canaries + native sampling on a real Problem/Driver"),
 }
